@@ -11,7 +11,7 @@ def expectedC08 : List (String × String) := [
   ("file:comparison.py", "c46d05a1308c92ce"),
   ("file:compat.py", "2a259e16acd200bc"),
   ("file:config.py", "142bde514c82c29d"),
-  ("file:transform/basics.py", "ef1ded632cafe787"),
+  ("file:transform/basics.py", "093d71f68c43a00a"),
   ("file:transform/setops.py", "6dff26ed32585dcd"),
   ("file:transform/sorts.py", "137f7e8a70e043fe"),
   ("file:util/base.py", "771a68108eeb730d"),
